@@ -440,11 +440,16 @@ func (s *streamGRPC) RecvMsg(m interface{}) error {
 			bufPool.Put(buf)
 			return err
 		}
-		size = uint32(buf.Len())
-		if int(size) > cap(b) {
-			b = make([]byte, 0, growcap(cap(b), int(size)))
+		// The limit applies to the message, not only to its compressed frame.
+		n := buf.Len()
+		if n > s.opts.maxReceiveMessageSize {
+			bufPool.Put(buf)
+			return fmt.Errorf("grpc: received message after decompression larger than max (%d vs. %d)", n, s.opts.maxReceiveMessageSize)
 		}
-		b = b[:int(size)]
+		if n > cap(b) {
+			b = make([]byte, 0, growcap(cap(b), n))
+		}
+		b = b[:n]
 		copy(b, buf.Bytes())
 		bufPool.Put(buf)
 	}
